@@ -49,7 +49,19 @@ def run_one_config(args):
         impl = tc.run_impl(exe, len(hists))
         evs = [tc.split_events(t) for t, _ in impl]
         packets = [tc.packets_of(e) for e in evs]
-        logs, dec, raw = tc.model_and_decode(cfg, s, hists, packets, d, 'cases')
+        sid = lg.stream_ids(cfg)[s['name']]
+        try:
+            ts_term = tc.real_tstream_term(files['metadata'], sid, cfg['features']['stream_id'] is not None)
+        except Exception as exc:   # metadata outside the TSDL grammar / unexpected shape
+            res['error'] = ('tsdl', 'real metadata cannot be read: %r' % (exc,))
+            return res
+        try:
+            ops_term = tc.real_ops_term(lg.to_barectf(cfg), s['name'])
+        except tc.OpShapeError as exc:
+            res['error'] = ('ops', 'real operation tree outside the normal form: %s' % exc)
+            return res
+        logs, dec, raw = tc.model_and_decode(cfg, s, hists, packets, d, 'cases', tstream_term=ts_term, ops_term=ops_term)
+        res['ops_agree'], res['tsdl_agree'] = getattr(tc.model_and_decode, 'last_agree', (None, None))
         if logs is None:
             res['error'] = ('model', raw[-1500:])
             return res
@@ -501,12 +513,24 @@ def campaign(ctx, pid):
         if r['error']:
             kind, msg = r['error']
             stats['config_errors'] += 1
-            if kind == 'build':
+            if kind in ('tsdl', 'ops'):
+                ctx.corr_broken.append('config seed %d: %s' % (r['seed'], msg[-300:]))
+            elif kind == 'build':
                 ctx.corr_broken.append('generated tracer of config seed %d does not build: %s' % (r['seed'], msg[-300:]))
             else:
                 ctx.corr_broken.append('Coq model evaluation failed for config seed %d: %s' % (r['seed'], msg[-300:]))
             continue
         stats['configs'] += 1
+        if r.get('ops_agree') is not True:
+            stats['op_tree_disagreements'] += 1
+            ctx.corr_broken.append('model of cgen._OpBuilder (Layout.Model.build) differs from the real operation trees: config seed %d' % r['seed'])
+        else:
+            stats['op_trees_agree'] += 1
+        if r.get('tsdl_agree') is not True:
+            stats['tsdl_disagreements'] += 1
+            ctx.corr_broken.append('model of the TSDL generator (tstream_of_dst) differs from the parsed real metadata: config seed %d' % r['seed'])
+        else:
+            stats['tsdl_agree'] += 1
         for hi, h in enumerate(r['hists']):
             stats['histories'] += 1
             stats['calls'] += len(h['calls'])
